@@ -598,7 +598,13 @@ int verif_proxy::run_force_callback()
   colvarvalue f(cv->value());
   f.reset();
   for (size_t i = 0; i < f.size(); i++) f[int(i)] = cb_force * double(i + 1);
-  cv->add_bias_force(f);
+  {
+    // as a scripted-force procedure does: cv colvar <name> addforce <value>
+    std::string const fs = f.to_simple_string();
+    unsigned char *argv[5] = {(unsigned char *) "cv", (unsigned char *) "colvar", (unsigned char *) cb_colvar.c_str(),
+                              (unsigned char *) "addforce", (unsigned char *) fs.c_str()};
+    if (run_colvarscript_command(5, argv) != COLVARS_OK) return COLVARS_ERROR;
+  }
   if (!cb_energy.empty()) {
     // as a scripted-force procedure would do: through the script interface
     unsigned char *argv[3] = {(unsigned char *) "cv", (unsigned char *) "addenergy", (unsigned char *) cb_energy.c_str()};
